@@ -67,8 +67,9 @@ Proof.
   apply negb_true_iff in Hq, Hdot, Hstar.
   unfold ident_tokens. rewrite Hq. unfold raw_tokens. rewrite split_dots_nodot by exact Hdot. cbn [append map sep_by].
   unfold raw_part. rewrite (has_char_star n Hstar).
-  unfold needs_quote in Hq. apply orb_false_elim in Hq. destruct Hq as [_ Hr]. cbn [d_reserved_raw print_ok negb andb] in Hr.
-  rewrite Hr. reflexivity.
+  unfold needs_quote in Hq. apply orb_false_elim in Hq. destruct Hq as [Hq Hd]. apply orb_false_elim in Hq. destruct Hq as [_ Hr].
+  cbn [d_reserved_raw d_digit_safe print_ok negb andb] in Hr, Hd.
+  rewrite Hr, Hd. reflexivity.
 Qed.
 
 Lemma ident_tokens_bare : forall n, (needs_quote print_ok n || plain_word print_ok n) = true ->
@@ -512,13 +513,20 @@ Definition w_dotted : mexpr := MIdent true "a.b".
 
 Ltac refute := repeat split; try reflexivity; eexists; split; [vm_compute; reflexivity|vm_compute; discriminate].
 
-Theorem refuted_no_parens : rt_fails (PFlags true false false false) w_parens. Proof. refute. Qed.
-Theorem refuted_is_not_null_lost : rt_fails (PFlags false true false false) w_isnotnull. Proof. refute. Qed.
-Theorem refuted_reserved_raw : rt_fails (PFlags false false true false) w_reserved. Proof. refute. Qed.
+Theorem refuted_no_parens : rt_fails (PFlags true false false false false) w_parens. Proof. refute. Qed.
+Theorem refuted_is_not_null_lost : rt_fails (PFlags false true false false false) w_isnotnull. Proof. refute. Qed.
+Theorem refuted_reserved_raw : rt_fails (PFlags false false true false false) w_reserved. Proof. refute. Qed.
 (* the unrepaired one: with '.' as a safe character the quoted identifier a.b is written raw and read as table a, column b *)
 Theorem refuted_dot_safe :
   proved w_dotted = true /\ ref_expr w_dotted = true /\
   exists ts, print_expr print_tree (ast_of w_dotted) = Some ts /\ parse_expr_top no_defects 0 (ts ++ eof_stop) <> Val (ast_of w_dotted, eof_stop).
+Proof. repeat split; try reflexivity. eexists; split; [vm_compute; reflexivity|vm_compute; discriminate]. Qed.
+
+(* the other unrepaired one: a quoted identifier that begins with a digit is written raw and read as a number *)
+Definition w_digit : mexpr := MIdent true "1".
+Theorem refuted_digit_safe :
+  proved w_digit = true /\ ref_expr w_digit = true /\
+  exists ts, print_expr print_tree (ast_of w_digit) = Some ts /\ parse_expr_top no_defects 0 (ts ++ eof_stop) <> Val (ast_of w_digit, eof_stop).
 Proof. repeat split; try reflexivity. eexists; split; [vm_compute; reflexivity|vm_compute; discriminate]. Qed.
 
 Theorem refuted_ctrlz_escape : exists s, read_lit_text (lit_text (CFlags true false false) s) <> Some (s, "").
